@@ -128,7 +128,9 @@ def replay(rec):
         res = json.loads(out[out.index("{"):])
     except Exception:
         return {"confirmed": None, "detail": {"rc": rc, "raw": out[-1500:]}}
-    failed = [k for k, v in res.items() if v is not True]
+    wrap = "position-counter" in ((rec.get("description") or "") + (rec.get("obligation") or ""))
+    # the 4 GiB probe demonstrates the recorded known finding C15-KF1 only; it confirms nothing else
+    failed = [k for k, v in res.items() if v is not True and (wrap or "4GiB" not in k)]
     if failed:
         return {"confirmed": True, "detail": {"failed": failed, "report": res, "why": "the same call gives a different result after the recorded history than in a fresh state"},
                 "real_code": "libUTAP built from /repo's working tree"}
